@@ -25,6 +25,8 @@ func init() {
 			{ID: "C06.R7", Floor: 1, Run: c05r11, Text: "target map ⇄ table target (= C05.R11): a re-used table is registered under the target it was activated with"},
 			{ID: "C06.R8", Floor: 2, Run: moversKeepDeadTargets, Text: "movers carry the inherited target over without testing its liveness: no Alive test on a value loaded from RelationTarget in a function that computes a destination table"},
 			{ID: "C06.R9", Floor: 3, Run: c01r7, Text: "column loops visit every column (= C01.R7): zeroing a vacated row must not stop at the first zero-sized component"},
+			{ID: "C06.R10", Floor: 1, Run: retireDropsReferences, Text: "references dropped on retire: every field of nodeData that can refer to a table (pointer, map or slice of table pointers) and is written at run time is updated by the retiring method, except the named exceptions"},
+			{ID: "C06.R11", Floor: 6, Run: c09r2, Text: "lock typestate (= C09.R2): removing an entity (e.g. a relation target) never leaves the world locked"},
 		},
 	})
 }
